@@ -187,7 +187,16 @@ func exec(op Op) string {
 	case "ucs2":
 		text := string(vk.UnHex(op.Text))
 		a, _ := cmpp.Utf8ToUcs2(text)
-		return digest([]byte(a), []byte(cmpp.Utf8ToUcs2Back(text)), []byte(cmpp.Utf8ToUcs2Pooled(text)))
+		b := cmpp.Utf8ToUcs2Back(text)
+		p := cmpp.Utf8ToUcs2Pooled(text)
+		d := digest([]byte(a), []byte(b), []byte(p))
+		// the caller holds its results while other goroutines keep converting: they must stay what they were
+		runtime.Gosched()
+		_ = cmpp.Utf8ToUcs2Pooled("x")
+		if d2 := digest([]byte(a), []byte(b), []byte(p)); d2 != d {
+			return "RESULT-CHANGED-WHILE-HELD " + d + " -> " + d2
+		}
+		return d
 	case "period":
 		now := time.Unix(int64(1700000000+op.U%100000), 0).UTC()
 		a, e1 := smpp.ToValidatePeriod(now, fmt.Sprintf("%ds", op.U%3000000), true)
@@ -455,12 +464,22 @@ func TestHotLoops(t *testing.T) {
 			if (kind == "ucs2" || kind == "split") && len(op.Text) > 2000 {
 				op.Text = vk.Hex([]byte(texts[0]))
 			}
+			if kind == "ucs2" && len(c.Ops) == 0 && rapid.IntRange(0, 2).Draw(t, "hothuge") == 0 {
+				// one conversion above 32768 UTF-16 units next to short ones: the pooled buffer grows past 64 KiB
+				// and is then handed to the short conversions of the other goroutines
+				op.Text = vk.Hex([]byte(hugeText))
+			}
 			op.Yield = false
 			c.Ops = append(c.Ops, op)
 		}
 		c.Iters = map[string]int{"msgid": 8000, "names": 1500, "period": 3000, "batchlog": 120}[kind]
 		if c.Iters == 0 {
 			c.Iters = 600
+		}
+		for _, op := range c.Ops {
+			if len(op.Text) > 100000 {
+				c.Iters = 60
+			}
 		}
 		rec.Eval()
 		j, _ := json.Marshal(c)
